@@ -42,7 +42,7 @@ pub fn info() -> PropInfo {
             "lookup.linear.hit", "lookup.linear.miss", "lookup.unwind.hit", "lookup.unwind.miss",
             "hdr.lookup", "hdr.fde_for_address.hit", "hdr.fde_for_address.miss", "hdr.unwind.hit", "hdr.pointer_to_offset", "hdr.iter", "hdr.nth",
             "hdr.enc.udata2", "hdr.enc.sdata2", "hdr.enc.udata4", "hdr.enc.sdata4", "hdr.enc.udata8", "hdr.enc.sdata8", "hdr.app.abs", "hdr.app.pcrel", "hdr.app.datarel",
-            "hdr.entries.1", "hdr.entries.40",
+            "hdr.entries.1", "hdr.entries.40", "hdr.version.unknown",
             "addr.1", "addr.2", "addr.4", "addr.8",
         ],
         run,
@@ -515,7 +515,7 @@ fn enc_stream(ctx: &mut Ctx) {
                     let hs = HdrSpec {
                         le,
                         addr_size,
-                        version: 1,
+                        version: if r.chance(1, 24) { r.next() as u8 } else { 1 },
                         eh_frame_ptr_enc: if role == 3 { enc } else { 0x03 },
                         fde_count_enc: count_enc,
                         table_enc: if role == 4 { enc } else { 0x03 },
@@ -540,6 +540,13 @@ fn hdr_enc_case(ctx: &mut Ctx, hs: &HdrSpec, ptr_role: bool) {
     ctx.eval();
     let hdr = EhFrameHdr::new(&hb.bytes, endian(hs.le));
     let Some(parsed) = ctx.guard("EhFrameHdr::parse", &input, || hdr.parse(&bases, hs.addr_size)) else { return };
+    if hs.version != 1 {
+        ctx.obs("hdr.version.unknown");
+        if !matches!(parsed, Err(gimli::Error::UnknownVersion(v)) if v == hs.version as u64) {
+            ctx.fail("hdr.parse.version", &format!("EhFrameHdr::parse: version {} must be rejected with UnknownVersion, observed {:?}", hs.version, parsed.map(|p| p.eh_frame_ptr())), &input);
+        }
+        return;
+    }
     // expected outcome of parse(): encodings are validated in order, then eh_frame_ptr, then count
     let want_err: Option<PeErr> = if !m::pe_is_valid(hs.eh_frame_ptr_enc) {
         Some(PeErr::Unknown(hs.eh_frame_ptr_enc))
